@@ -1291,3 +1291,263 @@ func ruleFileNoLstat(p *Prog, r *Report) {
 		r.OK(rule, "file readers", "names are resolved as the writers resolve them", "", fmt.Sprintf("%d readers: no os.Lstat / os.Readlink below them (os.Stat and os.Open follow links like os.Create)", n))
 	}
 }
+
+// ruleNewMapEarly (ARGS.validated, C12): NewMap rejects malformed pairs whatever the receiver holds, so a return without an error
+// that is decided before (outside) the pair loop may depend on the pairs only. Decided on control dependence: for each
+// nil-error return, the branch blocks outside every loop on which it is (transitively, outside loops) control dependent have
+// conditions whose backward slice does not contain the receiver.
+func ruleNewMapEarly(p *Prog, r *Report) {
+	const rule = "ARGS.validated"
+	fn := p.Fn("mxj.Map.NewMap")
+	if fn == nil || len(fn.Params) == 0 {
+		r.Anchor(rule, "mxj.Map.NewMap")
+		return
+	}
+	n := p.Name(fn)
+	recv := fn.Params[0]
+	ci := p.cfgOf(fn)
+	nRet := 0
+	for _, in := range instrsByPos(fn) {
+		ret, ok := in.(*ssa.Return)
+		if !ok || len(ret.Results) == 0 || !isNilConst(ret.Results[len(ret.Results)-1]) {
+			continue
+		}
+		nRet++
+		bad := ""
+		seen := map[int]bool{}
+		work := []int{ret.Block().Index}
+		nb := 0
+		for len(work) > 0 && bad == "" {
+			bi := work[len(work)-1]
+			work = work[:len(work)-1]
+			if seen[bi] {
+				continue
+			}
+			seen[bi] = true
+			for _, ce := range ci.cdep[bi] {
+				if innermostLoopHeader(ce.Block) != nil {
+					continue
+				}
+				ifi, ok := ce.Block.Instrs[len(ce.Block.Instrs)-1].(*ssa.If)
+				if !ok {
+					continue
+				}
+				nb++
+				if backwardSlice(fn, ifi.Cond)[recv] {
+					bad = p.Pos(ifi.Cond.Pos())
+					break
+				}
+				work = append(work, ce.Block.Index)
+			}
+		}
+		c := fmt.Sprintf("success return %d is not decided by the receiver ahead of the pair loop", nRet)
+		if bad != "" {
+			r.Bad(rule, n, c, p.Pos(ret.Pos()), "this return without an error is taken or not depending on a test of the receiver outside the pair loop ("+bad+"): for such receivers the pairs are never parsed, so malformed pairs are accepted")
+			continue
+		}
+		r.OK(rule, n, c, p.Pos(ret.Pos()), fmt.Sprintf("%d controlling branches outside loops; none depends on the receiver", nb))
+	}
+	_ = nRet
+	r.Floor(rule, 2)
+}
+
+// ruleEOFTest (ERR.eoftest, C19/C13): "the reader reported the end of the input" is recognised by the identity of io.EOF. A test
+// written with errors.Is matches every error that wraps io.EOF as well, so it is accepted only when no function reachable from the
+// testing function builds an error with the %w verb in a constant format (in this module that is the only way an error comes to wrap another: no
+// module type has an Unwrap or Is method — checked). Otherwise an error that reports a document cut short can be taken for the
+// normal end of the input.
+func ruleEOFTest(p *Prog, r *Report) {
+	const rule = "ERR.eoftest"
+	// module types with Unwrap / Is methods
+	var unwrappers []string
+	for _, f := range p.FuncList {
+		if p.InModule(f) && f.Signature.Recv() != nil && (f.Name() == "Unwrap" || f.Name() == "Is") {
+			unwrappers = append(unwrappers, p.Name(f))
+		}
+	}
+	nTests := 0
+	for _, fn := range p.FuncList {
+		if !p.InModule(fn) || len(fn.Blocks) == 0 {
+			continue
+		}
+		nIdent, k := 0, 0
+		for _, in := range instrsByPos(fn) {
+			switch x := in.(type) {
+			case *ssa.BinOp:
+				if (x.Op == token.EQL || x.Op == token.NEQ) && (isEOFLoad(x.X) || isEOFLoad(x.Y)) {
+					nIdent++
+				}
+			case *ssa.Call:
+				if !isCallTo(&x.Call, "errors.Is") || len(x.Call.Args) != 2 || !isEOFLoad(x.Call.Args[1]) {
+					continue
+				}
+				k++
+				nTests++
+				c := fmt.Sprintf("errors.Is test %d against io.EOF matches the sentinel only", k)
+				bad := ""
+				if len(unwrappers) > 0 {
+					bad = "the module defines " + strings.Join(unwrappers, ", ")
+				}
+				reach := p.Reach(fn)
+				var rs []*ssa.Function
+				for g := range reach {
+					if p.InModule(g) {
+						rs = append(rs, g)
+					}
+				}
+				sort.Slice(rs, func(i, j int) bool { return p.Name(rs[i]) < p.Name(rs[j]) })
+				for _, g := range rs {
+					if bad != "" {
+						break
+					}
+					for _, gi := range instrsByPos(g) {
+						gc, ok := gi.(*ssa.Call)
+						if !ok || !isCallTo(&gc.Call, "fmt.Errorf") || len(gc.Call.Args) == 0 {
+							continue
+						}
+						if s, ok := constString(gc.Call.Args[0]); ok && strings.Contains(s, "%w") {
+							bad = "fmt.Errorf at " + p.Pos(gc.Pos()) + " in " + p.Name(g) + " wraps an error with %w"
+							break
+						}
+					}
+				}
+				if bad != "" {
+					r.Bad(rule, p.Name(fn), c, p.Pos(x.Pos()), "errors.Is also matches errors that wrap io.EOF, and "+bad+": an error about input cut short can be taken for the normal end of the input")
+				} else {
+					r.OK(rule, p.Name(fn), c, p.Pos(x.Pos()), fmt.Sprintf("no error built in the %d reachable module functions wraps another", len(rs)))
+				}
+			}
+		}
+		if nIdent > 0 {
+			nTests += nIdent
+			r.OK(rule, p.Name(fn), "identity tests against io.EOF", p.Pos(fn.Pos()), fmt.Sprintf("%d comparisons with == / !=: only the sentinel itself matches", nIdent))
+		}
+	}
+	r.Instances[rule] = nTests
+	r.Floor(rule, 8)
+}
+
+// ruleEmptyPathSelf (PATH.segments clause, C11): SetValueForPath resolves the parent of a one-segment path with the empty path,
+// which selects the receiver itself because the segment list handed to the walker is then empty. If the zone analysis proves that
+// list non-empty at the walker call of oldValuesForPath, and no success return bypasses that call, the empty path can no longer
+// select the receiver. (Not provable on a tree where the list can be empty: nothing is demanded of how it becomes empty.)
+func ruleEmptyPathSelf(p *Prog, r *Report) {
+	const rule = "PATH.segments"
+	fn := p.Fn("mxj.Map.oldValuesForPath")
+	if fn == nil {
+		r.Anchor(rule, "mxj.Map.oldValuesForPath")
+		return
+	}
+	n := p.Name(fn)
+	z := p.zoneFlowOf(fn, nil)
+	nCalls := 0
+	for _, in := range instrsByPos(fn) {
+		c, ok := in.(*ssa.Call)
+		if !ok {
+			continue
+		}
+		h := staticCallee(&c.Call)
+		if h == nil || !p.InModule(h) {
+			continue
+		}
+		for _, a := range c.Call.Args {
+			if sl, ok := a.Type().Underlying().(*types.Slice); !ok || !isStringType(sl.Elem()) {
+				continue
+			}
+			fromSplit := false
+			for v := range backwardSlice(fn, a) {
+				if sc, ok := v.(*ssa.Call); ok && isCallTo(&sc.Call, "strings.Split") {
+					fromSplit = true
+				}
+			}
+			if !fromSplit {
+				continue
+			}
+			nCalls++
+			cn := "the segment list handed to " + p.Name(h) + " can be empty"
+			lt := z.lenTerm(a)
+			if !lt.ok || !z.leq(c, zterm{0, 1, true}, lt) {
+				r.OK(rule, n, cn, p.Pos(c.Pos()), "not provably non-empty: the empty path can select the receiver itself")
+				continue
+			}
+			// a success return that does not pass through the call?
+			after := reachableFrom(c.Block())
+			bypass := ""
+			for _, in2 := range instrsByPos(fn) {
+				if ret, ok := in2.(*ssa.Return); ok && !after[ret.Block()] && len(ret.Results) > 0 && isNilConst(ret.Results[len(ret.Results)-1]) {
+					bypass = p.Pos(ret.Pos())
+				}
+			}
+			if bypass != "" {
+				r.OK(rule, n, cn, p.Pos(c.Pos()), "provably non-empty here, but the success return at "+bypass+" answers without the walker")
+				continue
+			}
+			r.Bad(rule, n, cn, p.Pos(c.Pos()), "the list of path segments is provably non-empty at this call ("+z.describe(c, lt)+") and every successful answer passes through it: the empty path — the parent of a one-segment path in SetValueForPath — no longer selects the receiver itself")
+		}
+	}
+	if nCalls == 0 {
+		r.Anchor(rule, "walker call of "+n+" with the split path")
+	}
+}
+
+// ruleAnyXmlTags (ROOT.explicit, C03/C16): AnyXml(v, rootTag) and AnyXml(v, rootTag, elementTag) both name the root explicitly, so
+// the first optional tag must be read when two tags are given. Decided with the zone analysis: among the reads of tags[0] — in the
+// function or in a helper handed the tag list — at least one is at a point where len(tags) <= 1 is not provable. (If every read
+// is confined to the one-tag case, a call with both tags silently gets the default root.)
+func ruleAnyXmlTags(p *Prog, r *Report) {
+	const rule = "ROOT.explicit"
+	for _, name := range []string{"mxj.AnyXml", "mxj.AnyXmlIndent"} {
+		fn := p.Fn(name)
+		if fn == nil || len(fn.Params) == 0 {
+			r.Anchor(rule, name)
+			continue
+		}
+		type fp struct {
+			f   *ssa.Function
+			prm *ssa.Parameter
+		}
+		work := []fp{{fn, fn.Params[len(fn.Params)-1]}}
+		seen := map[*ssa.Function]bool{fn: true}
+		nReads, open := 0, ""
+		for i := 0; i < len(work) && i < 8; i++ {
+			w := work[i]
+			z := p.zoneFlowOf(w.f, nil)
+			lt := z.lenTerm(w.prm)
+			for _, in := range instrsByPos(w.f) {
+				switch x := in.(type) {
+				case *ssa.IndexAddr:
+					if x.X != ssa.Value(w.prm) {
+						continue
+					}
+					if k, ok := constInt(x.Index); !ok || k != 0 {
+						continue
+					}
+					nReads++
+					if !lt.ok || !z.leq(x, lt, zterm{0, 1, true}) {
+						open = p.Pos(x.Pos())
+					}
+				case *ssa.Call:
+					h := staticCallee(&x.Call)
+					if h == nil || !p.InModule(h) || p.Exported(h) || seen[h] || len(h.Blocks) == 0 {
+						continue
+					}
+					for ai, a := range x.Call.Args {
+						if a == ssa.Value(w.prm) && ai < len(h.Params) {
+							seen[h] = true
+							work = append(work, fp{h, h.Params[ai]})
+						}
+					}
+				}
+			}
+		}
+		c := "the explicit root tag is read when an element tag is given too"
+		switch {
+		case nReads == 0:
+			r.Bad(rule, name, c, p.Pos(fn.Pos()), "no read of the first optional tag was found in the function or the helpers handed the tag list")
+		case open == "":
+			r.Bad(rule, name, c, p.Pos(fn.Pos()), fmt.Sprintf("each of the %d reads of the first optional tag happens where the tag list provably has at most one member: with (rootTag, elementTag) the root silently stays the default", nReads))
+		default:
+			r.OK(rule, name, c, open, fmt.Sprintf("%d reads of the first optional tag; the one at %s is not confined to the one-tag case", nReads, open))
+		}
+	}
+}
